@@ -80,6 +80,19 @@ def run(case):
             viol.append(V('c06.drivers_differ', f'{multi}: repeated resolve() and resolve_iter() disagree'))
         if (util.canonical_dump(cg3), util.canonical_dump(aa3)) != d_iter:
             viol.append(V('c06.drivers_differ', f'{multi}: resolve_all() and resolve_iter() disagree'))
+        # the other two constructors on the same hierarchy
+        cut = multi.index('}.{')
+        for ctor in ('from_graph', 'from_fragment_dicts'):
+            cc = dict(base_string=multi[:cut + 1], frag_string=multi[cut + 2:], ctor=ctor)
+            if ctor == 'from_graph':
+                import cgsmiles
+                bg = cgsmiles.read_cgsmiles(cc['base_string'])
+                cc['base_graph'] = {'nodes': [[n, d['fragname']] for n, d in bg.nodes(data=True)],
+                                    'edges': [[a, b, d['order']] for a, b, d in bg.edges(data=True)]}
+            cg4, aa4 = MC.make_resolver(cc, **kw).resolve_all()
+            ok4, desc4 = final_matches(case, aa4, truth)
+            if not ok4:
+                viol.append(V('c06.constructor_differs', f'{multi} through {ctor} ends in a different molecule: {desc4}'))
     except Exception as err:
         viol.append(V('c06.exception.' + type(err).__name__, f'{multi} raised {type(err).__name__}: {err}'))
     try:
